@@ -113,6 +113,15 @@ def _fmain_kw(b):
     return fmain_kw
 
 
+def _fmain_n(b):
+    def fmain_n(path):
+        CALLS["fmain_n"] += 1
+        from redun import File
+        # the File sits in a call that is itself an argument of another call: outer(inner(File(p)))
+        return [T("idt")(T("summ")(File(path))), b]
+    return fmain_n
+
+
 def _summ_in(b):
     def summ_in(d):
         CALLS["summ_in"] += 1
@@ -171,7 +180,7 @@ def _xtop(b):
     return xtop
 
 
-BODIES = {"xleaf": _xleaf, "xtop": _xtop, "smain": _smain, "sh": _sh, "stop": _stop, "fmain_kw": _fmain_kw, "summ_in": _summ_in, "summ": _summ, "fmain": _fmain, "vleaf": _vleaf, "vtop": _vtop, "leaf": _leaf, "mid": _mid, "top": _top, "fanout": _fanout, "idt": _idt, "boom": _boom, "rec": _rec, "guard": _guard,
+BODIES = {"fmain_n": _fmain_n, "xleaf": _xleaf, "xtop": _xtop, "smain": _smain, "sh": _sh, "stop": _stop, "fmain_kw": _fmain_kw, "summ_in": _summ_in, "summ": _summ, "fmain": _fmain, "vleaf": _vleaf, "vtop": _vtop, "leaf": _leaf, "mid": _mid, "top": _top, "fanout": _fanout, "idt": _idt, "boom": _boom, "rec": _rec, "guard": _guard,
           "big": _big, "usebig": _usebig}
 
 
